@@ -378,7 +378,7 @@ pub fn all_props() -> Vec<PropDef> {
             engine: EngineKind::Seq,
             level: "exploration",
             decisive: &["point"],
-            quick_runs: 5000,
+            quick_runs: 1800,
             thorough_runs: 60000,
             rule: "one run = one generated history (config swarm x op mix x keys) executed sequentially against the real tree and the map model; after every step get/contains_key/size_of of every universe key and never-written neighbours are compared at visible_seqno and SeqNo::MAX. Non-trivial: >=2 flushes, >=1 merge that changed the table set, and data below L0; distinct by event-log digest.",
             profile: p_c01,
@@ -417,7 +417,7 @@ pub fn all_props() -> Vec<PropDef> {
             engine: EngineKind::Seq,
             level: "exploration",
             decisive: &["reopen", "point", "scan"],
-            quick_runs: 2000,
+            quick_runs: 4000,
             thorough_runs: 25000,
             rule: "drop+open at drawn positions of a history; afterwards the dump with sequence numbers equals the model minus unflushed writes, table/blob ids per level and highest persisted seqno are unchanged, id counters are past existing files, and the history continues. Non-trivial: reopen with >=2 populated levels or >=2 L0 runs.",
             profile: p_c04,
@@ -456,7 +456,7 @@ pub fn all_props() -> Vec<PropDef> {
             engine: EngineKind::Seq,
             level: "exploration",
             decisive: &["structure"],
-            quick_runs: 4500,
+            quick_runs: 3000,
             thorough_runs: 55000,
             rule: "after every version change the auditor scans every table of the published version: run disjointness/order, recency order across runs for shared keys, metadata (key range, seqno range, counts) vs contents, files exist, version file decodes to the same structure. Non-trivial: version with >=2 L0 runs or a multi-table run.",
             profile: p_c07,
@@ -508,7 +508,7 @@ pub fn all_props() -> Vec<PropDef> {
             engine: EngineKind::Multi,
             level: "exploration",
             decisive: &["multi", "point", "scan", "snapshot", "reopen"],
-            quick_runs: 1300,
+            quick_runs: 1200,
             thorough_runs: 30000,
             rule: "one run = 2-4 trees with independently drawn configurations (block size, restart interval, hash ratio, index/filter partitioning and pinning, filter policy incl. none and expect_point_read_hits, compression, standard/blob) opened in one process on one shared block cache (0 B, 1 KiB, 64 KiB, 16 MiB) and one shared descriptor table (none, 1, 2, 3, 256), fed one history in lock-step in a drawn order; after every step every tree re-reads every key, a full scan, len, first/last at the newest and at live snapshots, and once more after the other trees have run. evaluations = trees x runs. Non-trivial: configurations differ in >=3 knobs and the descriptor table (capacity <=3) is under pressure from >=2 tables.",
             profile: p_c11,
@@ -547,7 +547,7 @@ pub fn all_props() -> Vec<PropDef> {
             engine: EngineKind::Seq,
             level: "exploration",
             decisive: &["point", "snapshot", "scan", "reopen", "drop_range"],
-            quick_runs: 2000,
+            quick_runs: 4000,
             thorough_runs: 25000,
             rule: "drop_range with bounds drawn around table edges (incl. empty/inverted) and clear, with snapshots before and after; keys outside R and earlier snapshots must be unchanged; dropped tables must lie wholly inside R judged from their real first/last key; inside R the model re-synchronises from a physical audit. Non-trivial: a drop_range dropped >=1 table or a clear ran.",
             profile: p_c15,
@@ -586,7 +586,7 @@ pub fn all_props() -> Vec<PropDef> {
             engine: EngineKind::Seq,
             level: "exploration",
             decisive: &["seqno"],
-            quick_runs: 4500,
+            quick_runs: 4000,
             thorough_runs: 55000,
             rule: "after every version change get_highest_persisted_seqno is compared with the maximum seqno found by scanning all tables (global seqno applied), get_highest_memtable_seqno with the model's memtable maximum, get_highest_seqno with the max of both, and across reopen. Non-trivial: >=2 audits incl. an ingested table (shifted seqnos) or a merge.",
             profile: p_c18,
